@@ -173,7 +173,13 @@ def rule_stop(chk, s):
            loc(s, s.node), discr='stopped-once')
     need(fires, 'C08.d: stop() never fires stopped')
     f = fires[0]
-    q = pat.guarded_by(g, f, pat.test_edge(lambda t, pol: (pol == 'T' and src(t) in ('self.running', 'self._running'))))
+    RUN = ('self.running', 'self._running')
+    # (the flag may be read once into a local: `stopping = self.running … if stopping:`)
+    reads = {n.ast.targets[0].id: n for n in g.nodes if n.kind == 'stmt' and isinstance(n.ast, ast.Assign) and len(n.ast.targets) == 1 and isinstance(n.ast.targets[0], ast.Name)
+             and src(n.ast.value) in RUN and n.ast.targets[0].id in g.flags}
+    def is_running_test(t):
+        return src(t) in RUN or (isinstance(t, ast.Name) and t.id in reads)
+    q = pat.guarded_by(g, f, pat.test_edge(lambda t, pol: pol == 'T' and is_running_test(t)))
     chk.ob('d', s.ref, 'stopped is fired only if the manager was running', q is None, loc(s, f.ast), path=pat.path_lines(q) if q else None,
            discr='stopped-if-running')
     clr = [n for n in g.nodes if n.kind == 'stmt' and 'self' in pat.stores_attr(n.ast, '_running', False)]
@@ -195,6 +201,8 @@ def rule_stop(chk, s):
         return ws[-1] if ws else None
     tests_run = [n for n in g.nodes if n.kind == 'test' and src(n.ast) in ('self.running', 'self._running', 'not self.running', 'not self._running')
                  and any(Q.reaches(n, c_) for c_ in clr)]
+    # (read once into a local: the read is what has to happen under the lock)
+    tests_run += [rd for nm, rd in reads.items() if any(Q.reaches(rd, c_) for c_ in clr)]
     section = {id(lock_of(n)) for n in tests_run[:1] + [f] + clr}
     chk.ob('d', s.ref, 'stop() decides under the lock whether it is the one that stops: the test of the running flag, the queueing of `stopped` and the clearing of the flag '
                        'lie in one `with self._lock` block (else two overlapping calls both announce the stop)', bool(tests_run) and len(section) == 1 and None not in
